@@ -378,7 +378,8 @@ def run(ctx):
             if ln: lines.append(ln)
     while len(lines) < ncases:
         lines.append(gen_case(rng))
-    e2e_lines = gen_e2e(rng, 1500 if ctx.thorough() else 160)
+    # regression cases first: unchanged sub-directory whose tree pack was removed from the parent (finding 1 in NOTES.md)
+    e2e_lines = ["108 0 2 0", "122 1 2 0", "130 0 2 0", "138 4 2 0"] + gen_e2e(rng, 1500 if ctx.thorough() else 160)
     if ctx.replay:
         rp = json.load(open(ctx.replay))
         w = rp["witness"]
